@@ -290,4 +290,6 @@ def main(tier):
     siblings.check_offset_rounding(run, fx)
     siblings.check_day_carry(run, fx)
     siblings.check_offset_sign(run, fx)
+    from ..rules import extra
+    extra.check_candidates_sorted(run, fx)
     return run.finish(EXPLANATION)
